@@ -141,6 +141,7 @@ pub fn template_tracks() -> Vec<Track> {
         [0.5, 0.0, 0.0, 0.5, PI, 0.3],                 // identical to the first (ties in every sort)
         [1e3, 0.0, 0.3, 1e3 + 0.01, PI, 5e-324],       // huge radius, subnormal pitch
         [0.3, 0.3, -0.5, 0.45, -2.3, 40.0],            // passes 2.6 cm from the axis, large pitch
+        [0.5, 0.0, 0.01, 0.44, PI, 0.3],               // misses the axis by 6 cm (beyond the 5.3 cm cut), same z as the first
     ];
     p.iter().map(|q| vh::track_from_params(*q, -0.35, -0.2)).collect()
 }
